@@ -498,6 +498,10 @@ impl<T: RcObject> Rc<T> {
         let ptr = RcInner::alloc(obj, N as _);
         #[cfg(feature = "circ_verif")]
         crate::verif::ev(crate::verif::event::ALLOC, crate::verif::expose(ptr), 0);
+        if N == 0 {
+            // No owner will ever release the object: schedule its destruction right away.
+            unsafe { RcInner::decrement_strong(ptr, 0, None) };
+        }
         [(); N].map(|_| Self {
             ptr: Raw::from(ptr),
             _marker: PhantomData,
@@ -515,6 +519,10 @@ impl<T: RcObject> Rc<T> {
         let ptr = RcInner::alloc(obj, count as _);
         #[cfg(feature = "circ_verif")]
         crate::verif::ev(crate::verif::event::ALLOC, crate::verif::expose(ptr), 0);
+        if count == 0 {
+            // No owner will ever release the object: schedule its destruction right away.
+            unsafe { RcInner::decrement_strong(ptr, 0, None) };
+        }
         NewRcIter {
             remain: count,
             ptr: Raw::from(ptr),
